@@ -18,7 +18,16 @@ class RealResult:
     pass
 
 
-def run_real(argv, files, src_path, timeout=120):
+LAUNCHER = """import multiprocessing, sys
+if __name__ == "__main__":
+    multiprocessing.set_start_method(sys.argv[1])
+    from cutadapt.cli import main_cli
+    sys.argv = sys.argv[1:]
+    sys.exit(main_cli())
+"""
+
+
+def run_real(argv, files, src_path, timeout=120, start_method=None):
     """Run `python -m cutadapt <argv>` against the private build at src_path.
     Paths under /simfs/ are mapped into a fresh temporary directory (deleted afterwards)."""
     parent = "/dev/shm" if os.path.isdir("/dev/shm") else tempfile.gettempdir()
@@ -35,8 +44,14 @@ def run_real(argv, files, src_path, timeout=120):
         if real_argv and real_argv[-1] == "-":
             cands = sorted(p for p in files if p == SIMFS + "in" or p.startswith(SIMFS + "in."))
             stdin = open(os.path.join(d, cands[0][len(SIMFS):]), "rb")
+        cmd = [sys.executable, "-m", "cutadapt"]
+        if start_method:
+            # the same program with another multiprocessing start method (the default differs between platforms)
+            with open(os.path.join(d, "_launch.py"), "w") as f:
+                f.write(LAUNCHER)
+            cmd = [sys.executable, os.path.join(d, "_launch.py"), start_method]
         try:
-            p = subprocess.run([sys.executable, "-m", "cutadapt"] + real_argv, stdin=stdin,
+            p = subprocess.run(cmd + real_argv, stdin=stdin,
                                stdout=subprocess.PIPE, stderr=subprocess.PIPE, env=env, cwd=d, timeout=timeout)
             rc, out, err, hung = p.returncode, p.stdout, p.stderr.decode("utf-8", "replace"), False
         except subprocess.TimeoutExpired as e:
@@ -50,6 +65,8 @@ def run_real(argv, files, src_path, timeout=120):
         r.stderr = err.replace(d + "/", SIMFS)
         r.files = {}
         for name in os.listdir(d):
+            if name == "_launch.py":
+                continue
             with open(os.path.join(d, name), "rb") as f:
                 r.files[SIMFS + name] = f.read()
         return r
